@@ -3,6 +3,7 @@ package c19
 import (
 	"encoding/json"
 	"fmt"
+	"os"
 	"path/filepath"
 	"regexp"
 	"strconv"
@@ -46,6 +47,15 @@ func traceCfg(t *translated, skip map[string]bool) string {
 			invs = append(invs, i)
 		}
 	}
+	// the deviation switches describe the pinned code; once a deviation is repaired in /repo its switch has to flip
+	// (C19_FIXED=FixCapsOrder,FixIDChanged,... until the driver is updated)
+	sw := map[string]string{"FixAcceptSelect": "FALSE", "FixQueueDiscard": "FALSE", "FixIDChanged": "FALSE", "FixPeek": "FALSE",
+		"FixCapsOrder": "FALSE", "FixReleaseCtx": "FALSE"}
+	for _, f := range strings.Split(os.Getenv("C19_FIXED"), ",") {
+		if _, ok := sw[f]; ok {
+			sw[f] = "TRUE"
+		}
+	}
 	return `CONSTANTS
   Users = ` + quoteSet(users) + `
   Sessions = ` + quoteSet(sessions) + `
@@ -58,17 +68,19 @@ func traceCfg(t *translated, skip map[string]bool) string {
   ChanCap = 1
   Removable = ` + quoteSet(users) + `
   LateDial = TRUE
+  CtxCancel = TRUE
   FreeSections = TRUE
   WriterPref = FALSE
   Labels = TRUE
   OpenEnv = TRUE
   Eager = FALSE
   Coarse = FALSE
-  FixAcceptSelect = FALSE
-  FixQueueDiscard = FALSE
-  FixIDChanged = FALSE
-  FixPeek = FALSE
-  FixCapsOrder = FALSE
+  FixAcceptSelect = ` + sw["FixAcceptSelect"] + `
+  FixQueueDiscard = ` + sw["FixQueueDiscard"] + `
+  FixIDChanged = ` + sw["FixIDChanged"] + `
+  FixPeek = ` + sw["FixPeek"] + `
+  FixCapsOrder = ` + sw["FixCapsOrder"] + `
+  FixReleaseCtx = ` + sw["FixReleaseCtx"] + `
   Bug = "none"
 INIT TraceInit
 NEXT TraceNext
